@@ -44,7 +44,10 @@ static const Rng RNG[] = {
 	{"[1,1]",  false, 1, 1, 3, 5, {0, 1, 2, 1 - E20, 1 + E20}, {"below", "in", "above", "just-below", "just-above"}},
 	{"NULL",   true,  0, 0, 2, 0, {0, 5}, {"a", "b"}},
 	{"[1,0]",  false, 1, 0, 3, 0, {-1, 0.5, 2}, {"low", "mid", "high"}},
+	// magnitudes near DBL_MAX / DBL_MIN: differences overflow to inf, quotients underflow to 0 (sequence jobs only, no polyline coordinates)
+	{"[0,1.5e308]", false, 0, 1.5e308, 6, 8, {-1e308, 0, 1e308, 1e300, 1.5e308, 1.7e308, -1e-300, 1.5000015e308}, {"below", "at-min", "in1", "in2", "at-max", "above", "just-below", "just-above"}},
 };
+static const int HUGE_RNG = 5;
 static const int NRNG = 5;
 static inline bool inr(const Rng &g, double x) { return g.null || (x >= g.min && x <= g.max); }
 
@@ -52,7 +55,7 @@ static const double Q16 = 1.0 / 65536.0;
 
 struct Stats {
 	uint64_t calls, parts, cut, trim, both, shared, hidden, capped, join_ok, join_ref, join_spur, cxx_parts, poly_parts, poly_fail;
-	uint64_t nolist_points, nolist_split, pair_gap, pair_unequal, pair_same_segment_ok, lost_crossings, pair_frac_checked, pair_frac_undefined, pair_frac_differ, hist_reset, pair_parts, pair_cut_and_trim2, pair_hidden_by_second, pair_poly_parts, pair_hist;
+	uint64_t pair_reused, pair_first_empty, nolist_points, nolist_split, pair_gap, pair_unequal, pair_same_segment_ok, lost_crossings, pair_frac_checked, pair_frac_undefined, pair_frac_differ, hist_reset, pair_parts, pair_cut_and_trim2, pair_hidden_by_second, pair_poly_parts, pair_hist;
 	uint64_t nontrivial;
 };
 
@@ -441,7 +444,7 @@ static void run_case(Run &r, Stats &st, const Rng &g, const double *v, size_t n,
 		if (!join_pass(c, ws, js)) return;
 		if (!c.judge("join", js, false)) return;
 	}
-	drive_cxx(c, true);
+	drive_cxx(c, &g != &RNG[HUGE_RNG]);   // the interpolation of polyline coordinates is not judged at magnitudes where s2 - s1 overflows
 	if (!c.bad && g.null && n) nolist_check(r, st, v, n, c.suffix, desc);
 }
 
@@ -631,8 +634,6 @@ static void pair_case(Run &r, Stats &st, const double *lx, size_t nx, const doub
 		for (auto &p : first) if (p.usr != p.raw) { ++st.pair_hist; break; }
 	}
 	// polyline over both dimensions: points() of every part are exactly the values visible in both dimensions
-	// (maxsize() in value_store.cpp, outside the anchored files, only looks at the first store: first dimension must be the longest)
-	if (nx < ny) return;
 	r.hint("pair-polyline");
 	mpt::value_store vs[2];
 	if (!vs[0].set(sx) || !vs[1].set(sy)) { r.count("polyline_store_failed"); return; }
@@ -668,28 +669,59 @@ static void pair_case(Run &r, Stats &st, const double *lx, size_t nx, const doub
 	if (seen != visible) { fail("pair-polyline", "inrange-not-drawn", "iterator", fmt("iterating the parts shows %zu of %zu values visible in both dimensions", seen, visible)); return; }
 	st.pair_poly_parts += ps.size();
 	if (visible && hidden2) ++st.nontrivial;
+	// a polyline that already holds another curve must give exactly the result of a fresh one
+	static const double pfx[4] = {-0.5, 0.25, 1.7, 0.25}, pfy[4] = {-0.2, -0.2, -0.2, -0.2};
+	auto same_as_reused = [&](const char *drv, const mpt::layout::graph::transform3 &t, mpt::span<const mpt::value_store> stores, const mpt::polyline &fresh, bool fresh_ok) {
+		mpt::value_store pf[2];
+		if (!pf[0].set(mpt::span<const double>(pfx, 4)) || !pf[1].set(mpt::span<const double>(pfy, 4))) return true;
+		mpt::polyline re;
+		if (!re.set(tr, mpt::span<const mpt::value_store>(pf, 2))) return true;
+		r.hint(drv);
+		bool rok = re.set(t, stores);
+		r.transitions += 2;
+		mpt::span<const linepart> a = fresh.parts(), b = re.parts();
+		mpt::span<const mpt::polyline::point> pa = fresh.points(), pb = re.points();
+		bool eq = rok == fresh_ok && a.size() == b.size() && pa.size() == pb.size();
+		for (long i = 0; eq && i < a.size(); ++i) eq = same(a.begin()[i], b.begin()[i]);
+		for (long i = 0; eq && fresh_ok && i < pa.size(); ++i) eq = (pa.begin()[i].x == pb.begin()[i].x || (pa.begin()[i].x != pa.begin()[i].x && pb.begin()[i].x != pb.begin()[i].x)) && (pa.begin()[i].y == pb.begin()[i].y || (pa.begin()[i].y != pa.begin()[i].y && pb.begin()[i].y != pb.begin()[i].y));
+		if (asan_error()) { fail(drv, "memory", "asan", "set() on a polyline that holds another curve accesses memory outside its arrays"); return false; }
+		if (eq) { ++st.pair_reused; return true; }
+		std::vector<linepart> va(a.begin(), a.begin() + a.size()), vb(b.begin(), b.begin() + b.size());
+		fail(drv, "stale-state", rok != fresh_ok ? "result" : (a.size() != b.size() || va.size() && !same(va[0], vb[0]) ? "parts" : "points"),
+		     fmt("set() on a polyline that held a 4-point curve returns %d with %ld points, a fresh polyline returns %d with %ld points", (int) rok, (long) pb.size(), (int) fresh_ok, (long) pa.size()) + " ; reused " + parts_str(vb) + " ; fresh " + parts_str(va));
+		return false;
+	};
+	if (n <= 4 && !same_as_reused("pair-polyline-reused", tr, mpt::span<const mpt::value_store>(vs, 2), pl, true)) return;
 	// three dimensions, the middle store has no double data (empty, or float values) and is skipped by the library:
 	// x in dimension 0 and y in dimension 2 must still both be range-checked, the parts are the same as for (x, y)
-	if (nx != ny || n > 4) return;
-	for (int variant = 0; variant < (n <= 3 ? 2 : 1); ++variant) {
-		const char *drv = variant ? "pair-polyline-gap-float" : "pair-polyline-gap-empty";
+	// variant 2: the FIRST store is empty, x and y are dimensions 1 and 2 (also with different lengths)
+	if (n > 4) return;
+	for (int variant = 0; variant < 3; ++variant) {
+		if (variant < 2 && nx != ny) continue;
+		if (variant == 1 && n > 3) continue;
+		const char *drv = variant == 2 ? "pair-polyline-first-empty" : (variant ? "pair-polyline-gap-float" : "pair-polyline-gap-empty");
 		r.hint(drv);
 		mpt::layout::graph::transform3 t3;
 		setup_tr(t3, RNG[0], 1);
-		t3._dim[1]._flags = mpt::TransformLimit; { struct mpt::range lim(100, 200); t3._dim[1].limit = lim; }   // would hide everything if it were applied to y
+		int dx = variant == 2 ? 1 : 0, dskip = variant == 2 ? 0 : 1;
+		if (dx) { t3._dim[1] = t3._dim[0]; }
+		t3._dim[dskip]._flags = mpt::TransformLimit; { struct mpt::range lim(100, 200); t3._dim[dskip].limit = lim; }   // would hide everything if it were applied to data
+		t3._dim[dskip].to = mpt::fpoint(0, 0);
 		t3._dim[2]._flags = mpt::TransformLimit; { struct mpt::range lim(RNG[1].min, RNG[1].max); t3._dim[2].limit = lim; }
 		t3._dim[2].scale = 1; t3._dim[2].add = 0; t3._dim[2].to = mpt::fpoint(0, 1);
 		mpt::value_store v3[3];
 		static const float fl[4] = {150, 150, 150, 150};
-		if (!v3[0].set(sx) || !v3[2].set(sy) || (variant && !v3[1].set(mpt::span<const float>(fl, (long) n)))) { r.count("polyline_store_failed"); return; }
+		if (!v3[dx].set(sx) || !v3[2].set(sy) || (variant == 1 && !v3[1].set(mpt::span<const float>(fl, (long) n)))) { r.count("polyline_store_failed"); return; }
 		mpt::polyline p3;
 		ok = p3.set(t3, mpt::span<const mpt::value_store>(v3, 3));
 		++r.transitions;
+		if (variant == 2 && !same_as_reused("pair-polyline-first-empty-reused", t3, mpt::span<const mpt::value_store>(v3, 3), p3, ok)) return;
 		if (!ok) {
 			if (asan_error()) { fail(drv, "memory", "asan", "access outside the value arrays (AddressSanitizer)"); return; }
 			if (visible) { fail(drv, "refused", "visible-points", fmt("set() failed although %zu values are in range in both dimensions", visible)); return; }
 			continue;
 		}
+		if (variant == 2) ++st.pair_first_empty;
 		sp = p3.parts();
 		ps.assign(sp.begin(), sp.begin() + sp.size());
 		if (!judge(drv, false)) return;
@@ -818,6 +850,19 @@ static void code_job(Run &r, Stats &st)
 		if (!ok || lr != len || lu != len || a.length() != cnt) r.violation("array-set|length|recount", fmt("set(-1) after set(%ld): length_raw()=%ld length_user()=%ld", len, lr, lu));
 		else ++st.nontrivial;
 	}
+	// a polyline that holds a curve is set from stores without any double data: nothing may stay drawn
+	{
+		mpt::layout::graph::transform3 tr; setup_tr(tr, RNG[0], 2);
+		const double px[4] = {-0.5, 0.25, 1.7, 0.25}, py[4] = {0, 0, 0, 0};
+		mpt::value_store pf[2], none[2];
+		mpt::polyline pl;
+		if (pf[0].set(mpt::span<const double>(px, 4)) && pf[1].set(mpt::span<const double>(py, 4)) && pl.set(tr, mpt::span<const mpt::value_store>(pf, 2))) {
+			r.hint("polyline-reuse");
+			bool ok = pl.set(tr, mpt::span<const mpt::value_store>(none, 2));
+			++r.states; ++r.transitions;
+			if (ok || pl.points().size() || pl.parts().size()) r.violation("polyline-reuse|stale-state|no-data", fmt("set() from two empty stores on a polyline holding 4 points returns %d and keeps %ld points in %ld parts", (int) ok, (long) pl.points().size(), (long) pl.parts().size()));
+		}
+	}
 	// apply_data() without part list: lengths around one, two and three times the 65535 limit
 	const size_t nl[] = {1, 2, 65534, 65535, 65536, 131069, 131070, 131071, 131072, 196605, 196606, 200000};
 	for (size_t n : nl) {
@@ -869,6 +914,8 @@ void mc_jobs(Tier t, std::vector<std::string> &jobs)
 	seq_jobs(jobs, 2, 8, q ? 6 : 8);      // 5 letters
 	seq_jobs(jobs, 3, 6, q ? 9 : 12);     // NULL range, 2 letters
 	seq_jobs(jobs, 4, 6, q ? 8 : 11);     // inverted range, 3 letters
+	seq_jobs(jobs, HUGE_RNG, 6, q ? 5 : 7);
+	seq_jobs(jobs, HUGE_RNG, 8, q ? 4 : 6);
 	// two limited dimensions: all pairs of sequences of length 1..4 (quick) / 1..5 (thorough; length 5 with four letters for y)
 	for (int L = q ? 4 : 5; L >= 1; --L) {
 		if (L >= 4) for (int a = 0; a < 6; ++a) jobs.push_back(fmt("pair|L=%d|p=%d", L, a));
@@ -900,6 +947,7 @@ static void flush_stats(Run &r, const Stats &st)
 	r.count("pair_inputs_with_dimensions_of_different_length", st.pair_unequal); r.count("pair_parts_cut_and_trim_on_one_segment_nonempty", st.pair_same_segment_ok);
 	r.count("crossings_next_to_a_drawn_point_without_fraction(part limit; not flagged)", st.lost_crossings);
 	r.count("nolist_points_applied", st.nolist_points); r.count("nolist_runs_longer_than_65535", st.nolist_split); r.count("pair_polyline_skipped_middle_store_second_dimension_hides", st.pair_gap);
+	r.count("pair_polyline_reused_equals_fresh", st.pair_reused); r.count("pair_polyline_first_store_empty", st.pair_first_empty);
 	r.count("pair_fractions_checked", st.pair_frac_checked); r.count("pair_fractions_two_dimensions_cross_differently", st.pair_frac_differ); r.count("pair_fractions_undefined(not judged)", st.pair_frac_undefined);
 	r.count("cxx_array_parts", st.cxx_parts); r.count("polyline_parts", st.poly_parts); r.count("polyline_nothing_visible", st.poly_fail);
 }
@@ -910,7 +958,7 @@ void mc_explore(Run &r, const std::string &job)
 	                      "parts_at_limit(raw=65535)", "join_merged", "join_refused", "cxx_array_parts", "polyline_parts",
 	                      "array_history_reset_with_usr!=raw", "pair_parts", "pair_parts_cut_and_trim_usr=2", "pair_inputs_hidden_only_by_second_dimension", "pair_polyline_parts", "pair_history_reset_with_usr!=raw", "pair_fractions_checked", "pair_fractions_two_dimensions_cross_differently",
 	                      "pair_inputs_with_dimensions_of_different_length", "pair_parts_cut_and_trim_on_one_segment_nonempty",
-	                      "nolist_points_applied", "nolist_runs_longer_than_65535", "pair_polyline_skipped_middle_store_second_dimension_hides"}) r.require(k);
+	                      "nolist_points_applied", "nolist_runs_longer_than_65535", "pair_polyline_reused_equals_fresh", "pair_polyline_first_store_empty", "pair_polyline_skipped_middle_store_second_dimension_hides"}) r.require(k);
 	if (job == "codes") { r.additive = true; r.enter(Vec(), "code"); code_job(r, st); ++r.executions; }
 	else dfs(r, [&](Ctx &x) { body(r, st, job, x); });
 	flush_stats(r, st);
